@@ -344,9 +344,12 @@ impl LLFree<'_> {
                 .locals
                 .class_locals(target_class)
                 .expect("Invalid class");
-            // Target might have less locals or none
-            assert!(class_len > 0, "No locals for class {target_class:?}");
-            let local = local % class_len;
+            // Target might have less locals or none; the slot is only needed for a new reservation
+            assert!(
+                !reserved || class_len > 0,
+                "No locals for class {target_class:?}"
+            );
+            let local = local.checked_rem(class_len).unwrap_or(0);
 
             // Perform lower alloc, if it fails undo reservation
             match self.lower.get(i.as_row(), order, None) {
